@@ -80,15 +80,18 @@ def verdict (js : String) : Option (List Nat × Algs × Nat × Nat) :=
       let maxSfl := req.getD STATE_FORMAT_LEVEL_CURRENT
       match setCommands ((strField js "Commands").getD defaultCommands).toList maxSfl, setAlgorithms ((strField js "Algorithms").getD defaultAlgorithms) maxSfl,
             setAttributes ((strField js "Attributes").getD "") maxSfl with
-      | some (en, s1), some a, some (fl, s3) => some (en, a, max (max (max s1 2) (req.getD 0)) s3, fl)
+      | some (en, s1), some a, some (fl, s3) => some (en, a, max (max (max (max s1 2) (req.getD 0)) s3) a.level, fl)
       | _, _, _ => none
 
-/-- the highest StateFormatLevel the profile allows: the built-ins have theirs, a custom profile the one it names, else the library's -/
-def maxSflOf (js : String) : Nat :=
+/-- the StateFormatLevel key sizes are checked against when a key is used (`g_RuntimeProfile.stateFormatLevel` in the
+    key-size unmarshalling): the built-ins have theirs; a custom profile the level it names; a custom profile that names none
+    the level that results from its commands, algorithms and attributes (`resulting`; at least 2) — an algorithm listed
+    without a minimum size does not raise the level, so its sizes that need a higher one stay unavailable -/
+def maxSflOf (js : String) (resulting : Nat) : Nat :=
   match strField js "Name" with
   | some "null" => 1
   | some "default-v1" => STATE_FORMAT_LEVEL_CURRENT
-  | _ => match numField js "StateFormatLevel" with | some 0 => STATE_FORMAT_LEVEL_CURRENT | some l => l | none => STATE_FORMAT_LEVEL_CURRENT
+  | _ => match numField js "StateFormatLevel" with | some 0 => resulting | some l => l | none => resulting
 
 def parseList (s : String) : List Nat := (s.splitOn ",").filterMap String.toNat?
 def libImplemented (cc : Nat) : Bool := match Gen.ccTable.find? (·.1 == cc) with | some (_, _, _, impl, _) => impl | none => false
@@ -193,7 +196,7 @@ def step (c : CS) (l : Line) : CS :=
         let c := if fl &&& observable ≠ spec &&& observable then
           mism c s!"SPEC[attribute-table] the attributes {(strField js "Attributes").getD ""} switch on flags {fl} by the library's table, {spec} by their definition" else c
         -- the probes are judged against what the attributes mean
-        { c with enabled := some en, algs := some a, sfl := s, attrFlags := spec ||| fl, maxSfl := maxSflOf js }
+        { c with enabled := some en, algs := some a, sfl := s, attrFlags := spec ||| fl, maxSfl := maxSflOf js s }
       | none => c
   | "maininit" =>
       match c.pendingReject with
@@ -206,7 +209,12 @@ def step (c : CS) (l : Line) : CS :=
       let js := String.ofList (chars (l.bytes "json"))
       let tag := l.str "tag"
       match c.active with
-      | none => { c with active := some js }
+      | none =>
+        -- the level the TPM reports is the one the model computes from the commands, algorithms and attributes of the profile
+        let c := match c.algs, numField js "StateFormatLevel" with
+          | some _, some lvl => if lvl ≠ c.sfl then mism c s!"SPEC[state-format-level] ActiveProfile reports StateFormatLevel {lvl}, the profile's items need {c.sfl}" else branch c s!"sfl/{lvl}"
+          | _, _ => c
+        { c with active := some js }
       | some a => if a ≠ js then mism c s!"SPEC[profile-changed] [{tag}] ActiveProfile is now {js}, was {a}" else branch c s!"active/{tag}/same"
   | "surface" =>
       let c := { c with cur := { cmds := l.str "cmds" }, curTag := l.str "tag" }
